@@ -20,6 +20,8 @@ type profile struct {
 	MinVoters, MaxVoters, MaxNonvoters                        int
 	Clients                                                   int // max clients
 	TwoClusters                                               bool
+	Misroute                                                  int // per-mille of dials that end up at another node's listener
+	Intruder                                                  int // tick weight: a second instance tries to use a served directory
 	TinySegments                                              bool
 	C06Every                                                  int // evaluate the durability oracle at one in so many commit advances (0: never)
 	Templates                                                 []string
@@ -42,6 +44,8 @@ var profiles = map[string]profile{
 		Transfer: 60, Member: 100, Snapshot: 100, WipeNonvoter: 10, MinVoters: 2, MaxVoters: 5, MaxNonvoters: 2, Clients: 5, TinySegments: true},
 	"snapmember": {Name: "snapmember", Partition: 40, Heal: 120, Crash: 40, Restart: 150, Stall: 60, ConnReset: 20, ConnStall: 20,
 		Transfer: 20, Member: 200, Snapshot: 250, MinVoters: 1, MaxVoters: 4, MaxNonvoters: 2, Clients: 4, TinySegments: true, C06Every: 8},
+	"identity": {Name: "identity", Partition: 30, Heal: 120, Crash: 40, Restart: 150, Stall: 20, ConnReset: 60, ConnStall: 10,
+		Transfer: 20, Member: 40, Snapshot: 20, MinVoters: 2, MaxVoters: 4, MaxNonvoters: 1, Clients: 3, TwoClusters: true, Misroute: 150, Intruder: 60},
 	"calm": {Name: "calm", MinVoters: 1, MaxVoters: 5, MaxNonvoters: 1, Clients: 4, Snapshot: 30, Member: 30, Transfer: 30},
 }
 
